@@ -76,7 +76,9 @@ impl Generator {
             buf: match profile { "reads" | "pressure" => rng.pick(&[1usize, 1, 2, 3]), "bigbuf" => rng.pick(&[65usize, 100, 128, 150]), _ => rng.pick(&[1usize, 2, 3, 64]) },
             counters: match profile { "boundary" => rng.pick(&[1u64, 2, 3]), "reads" => rng.pick(&[1u64, 2, 3, 5, 16]), _ => rng.pick(&[1u64, 2, 3, 10, 16, 100]) },
             hash: rng.pick(&[0u64, 0, 1, 2]),
-            wbase: rng.pick(&[1i64, 1, 2, 5]),
+            // boundary: a weight function that yields 0 (or less) for some values — `put` / `put_with_ttl` / an upsert acting
+            // as a put then hit the documented assertion on the computed weight
+            wbase: if profile == "boundary" { rng.pick(&[1i64, 1, 0, -24, 2]) } else { rng.pick(&[1i64, 1, 2, 5]) },
             wmod: rng.pick(&[1u64, 3]),
             now: rng.pick(&[1_000u64 * SEC, 1_000 * SEC + 1, 1_000 * SEC + 999_999_999, 1_700_000_000 * SEC]),
             clients: 3,
